@@ -28,9 +28,18 @@ def run(tier):
         if k % 6 == 4:
             at = rnd.randint(3, 25)
             j['ops'] = [dict(at=at, op='pause'), dict(at=at + 5, op='resume')]
+    # with-items over sub-workflows whose task fails for every item; the failed tasks inside ALL item sub-workflows are rerun back to
+    # back: the parent task has to wait for every re-running child
+    from harness import gen, engrun
+    for n_items in (2, 3):
+        for k, pol in enumerate(engrun.POLICIES[1:]):
+            P = gen.items_over_subworkflows(n_items, conc=(None if k % 2 else n_items))
+            ops = [dict(at=300, op='rerun', reset=True, target='r/t0#0@0.0/sub1x0#0')]
+            ops += [dict(rel=0, op='rerun', reset=True, target='r/t0#0@%d.0/sub1x0#0' % i) for i in range(1, n_items)]
+            jobs.append(dict(prog=P, scheduler=('default', 'legacy')[k % 2], policy=pol, seed=k + 1, label='itemsub%d' % n_items, ops=ops, max_steps=900))
     return ec.run_property(PID, tier, jobs,
                            'generated programs whose tasks call sub-workflows (plain and with-items callers, child outcomes from the oracle), '
-                           'some cancelled or paused/resumed midway; non-trivial = distinct runs with at least one sub-workflow execution',
+                           'some cancelled or paused/resumed midway; fixed histories: the failed tasks inside all item sub-workflows of a with-items caller rerun back to back; non-trivial = distinct runs with at least one sub-workflow execution',
                            _nontrivial, prescribed=True)
 
 
